@@ -45,7 +45,7 @@ def gen(seed, idx, tier):
   spec.pop("mopt", None)
   return {
     "property": ID, "seed": seed, "idx": idx, "model": spec, "nworld": int(r.choice([1, 2])), "rejected_models": rejected,
-    "init": {"seed": int(r.integers(1 << 30)), "pos_noise": 0.1, "vel_noise": 0.6, "act_noise": 0.2},
+    "init": {"seed": int(r.integers(1 << 30)), "pos_noise": 0.1, "vel_noise": float(_rng.gen("c08vel", seed, idx).choice([0.6, 0.6, 2.5, 8.0])), "act_noise": 0.2},
     "hist_seed": int(r.integers(1 << 30)), "steps": int(r.integers(5, 60)),
   }  # fmt: skip
 
@@ -68,12 +68,18 @@ def run(sc):
     n = mujoco.mj_stateSize(mjm, 1 << bit)
     comps.append((mujoco.mjtState(1 << bit).name.replace("mjSTATE_", "").lower(), off, off + n))
     off += n
+  pv_lo = next(a for n_, a, b in comps if n_ == "qpos")
+  pv_hi = next(b for n_, a, b in comps if n_ == "qvel")
   integ = sc["model"]["opt"].get("integrator", "euler")
   eulerdamp = not (int(sc["model"]["opt"].get("disableflags", 0)) & 32768)
   dt = float(mjm.opt.timestep)
   kinds = "+".join(sorted({mujoco.mjtJoint(int(t)).name[6:].lower() for t in mjm.jnt_type}))
   viols = []
-  TOL = {"time": (0.0, 1e-7), "qpos": (1e-4, 2e-6), "act": (1e-4, 2e-6), "qvel": (2e-3, 2e-5), "warmstart": (2e-2, 1e-3)}
+  # (rtol, atol) per component. Unconstrained steps are pure smooth dynamics + integrator arithmetic: float32 round-off only (calibrated
+  # on the repaired tree: worst observed error / scale, recorded in faults_fired.worst_*_relerr_x1e9, is below 1/20 of these values).
+  # Constrained steps additionally carry the two solvers' termination tolerance.
+  TOL_FREE = {"time": (0.0, 1e-7), "qpos": (2e-6, 1e-6), "act": (1e-5, 1e-6), "qvel": (4e-5, 2e-6), "warmstart": (2e-3, 1e-3)}
+  TOL_CON = {"time": (0.0, 1e-7), "qpos": (5e-4, 1e-5), "act": (5e-4, 1e-5), "qvel": (1e-2, 1e-4), "warmstart": (1e-1, 5e-3)}
   for k in range(sc["steps"]):
     for op in core.random_history(_rng.mix(sc["hist_seed"], k), mjm, nworld, 1)[:-1]:
       core.apply_op(cx, op)
@@ -87,6 +93,7 @@ def run(sc):
     S2 = core.get_istate(mjm, m, d)
     ov = d.overflow.numpy()
     nefc_w = d.nefc.numpy()
+    niter_w = d.solver_niter.numpy()
     if scen.capacity_overflow(d):
       stats["skipped"]["capacity_overflow"] = stats["skipped"].get("capacity_overflow", 0) + 1
       break
@@ -94,7 +101,7 @@ def run(sc):
     con_w = d.contact.worldid.numpy()[: int(d.nacon.numpy()[0])]
     con_d = d.contact.dist.numpy()[: int(d.nacon.numpy()[0])]
     for w in range(nworld):
-      if float(np.max(np.abs(S[w]))) > 50.0:
+      if float(np.max(np.abs(S[w, pv_lo:pv_hi]))) > 200.0:  # positions / velocities only (warmstart accelerations are routinely large)
         stats["skipped"]["unphysical_state"] = stats["skipped"].get("unphysical_state", 0) + 1
         continue
       mujoco.mj_setState(mjm, mjd, S[w].astype(np.float64), core.INTEGRATION)
@@ -120,6 +127,11 @@ def run(sc):
       if (int(ov[w]) & (core.OV_ITER | core.OV_LS)) or (mjd.solver_niter[0] >= mjm.opt.iterations if mjd.nefc else False):
         stats["skipped"]["solver_budget_hit"] = stats["skipped"].get("solver_budget_hit", 0) + 1
         continue
+      if constrained and (int(niter_w[w]) > 40 or (mjd.nefc and int(mjd.solver_niter[0]) > 40)):
+        # a constrained step on which either Newton/CG solver needs more than 40 iterations is ill-conditioned: the two solvers stop at
+        # different points of a flat cost valley and the difference is set by their termination tests, not by the integrator
+        stats["skipped"]["ill_conditioned_solve"] = stats["skipped"].get("ill_conditioned_solve", 0) + 1
+        continue
       if integ != "rk4" and int(nefc_w[w]) != int(mjd.nefc):
         stats["skipped"]["row_count_differs_threshold"] = stats["skipped"].get("row_count_differs_threshold", 0) + 1
         continue
@@ -138,7 +150,7 @@ def run(sc):
       stats["evaluations"] += 1
       if constrained or mjm.na or "free" in kinds or "ball" in kinds:
         stats["nontrivial"].append(f"{integ}|ed{int(eulerdamp)}|{'con' if constrained else 'free'}|na{int(mjm.na > 0)}|{kinds}|{sc['model']['opt'].get('solver')}/{sc['model']['opt'].get('cone')}")
-      mult = 5.0 if constrained else 1.0
+      TOL = TOL_CON if constrained else TOL_FREE
       for name, a, b in comps:
         if name not in TOL or a == b:
           continue
@@ -148,10 +160,12 @@ def run(sc):
         if name == "qvel":
           # the velocity update is dt * qacc: scale the allowance with the acceleration level as well
           scale = max(scale, dt * float(np.max(np.abs(mjd.qacc))) if mjm.nv else 0.0)
-        tol = (atol + rtol * scale) * (mult if name != "time" else 1.0)
+        tol = atol + rtol * scale
         err = float(np.max(np.abs(x - y)))
-        key = f"worst_{name}_err_over_tol_x1000"
+        key = f"worst_{'con' if constrained else 'free'}_{name}_err_over_tol_x1000"
         stats["faults"][key] = max(stats["faults"].get(key, 0), int(1000 * err / tol))
+        key = f"worst_{'con' if constrained else 'free'}_{name}_relerr_x1e9"
+        stats["faults"][key] = max(stats["faults"].get(key, 0), int(1e9 * err / scale))
         if err > tol:
           i = int(np.argmax(np.abs(x - y)))
           viols.append({"class": {"oracle": "step_matches_mujoco", "component": name, "integrator": integ, "constrained": bool(constrained)},
